@@ -107,16 +107,22 @@ fn expand_relspec(value: &str, ctx: &impl ElementMap) -> String {
             value = &value[idx..];
             // (a '.' between digits - the decimal point of an edge offset such as
             // "#a@t:2.5" - belongs to the word)
-            let chars: Vec<(usize, char)> = value.char_indices().collect();
-            let word_end = chars.iter().enumerate().skip(1).find_map(|(k, &(idx, c))| {
+            let mut seen_edge_sep = false;
+            let mut before = value.chars().next().unwrap_or_default();
+            let mut chars = value.char_indices().skip(1).peekable();
+            let mut word_end = None;
+            while let Some((idx, c)) = chars.next() {
                 let decimal_point = c == '.'
-                    && value[..idx].contains(EDGESPEC_SEP)
-                    && chars.get(k + 1).is_some_and(|n| n.1.is_ascii_digit())
-                    && (chars[k - 1].1.is_ascii_digit()
-                        || chars[k - 1].1 == EDGESPEC_SEP
-                        || chars[k - 1].1 == '-');
-                (word_break(c) && !decimal_point).then_some(idx)
-            });
+                    && seen_edge_sep
+                    && chars.peek().is_some_and(|n| n.1.is_ascii_digit())
+                    && (before.is_ascii_digit() || before == EDGESPEC_SEP || before == '-');
+                if word_break(c) && !decimal_point {
+                    word_end = Some(idx);
+                    break;
+                }
+                seen_edge_sep |= c == EDGESPEC_SEP;
+                before = c;
+            }
             if let Some(idx) = word_end {
                 result.push_str(&expand_single_relspec(&value[..idx], ctx));
                 value = &value[idx..];
